@@ -52,7 +52,7 @@ func (c01) NRuns(tier string) int {
 	return 12000
 }
 func (c01) Rule() string {
-	return "1..4 successive messages on channel 0 or a logical channel; a message is 1..5 packages (raw byte packages of any length, language and done packages) whose total length is m*(packetSize-8)+d with m in 0..3 and d in {-2..+2} half of the time (uniform otherwise), split so that package ends also fall on packet ends; header type 1..23; call split queue-all / last-by-SendPackage / single SendPackage; 15% of the messages are preceded by an abandoned one (a partial packet queued, then flushed with a cancelled context: must fail and leave nothing behind); the peer announces a new packet size (256, 257, 511, 512, 513, 1024, 4096, 32768, 65535 or uniform) between messages; the peer's wire record is parsed by an independent header codec; non-trivial = message longer than one packet body or a size change took effect; distinct = distinct (packet size, boundary class d, m, split, channel kind)"
+	return "1..4 successive messages on channel 0 or a logical channel; a message is 1..5 packages (raw byte packages of any length, language and done packages) whose total length is m*(packetSize-8)+d with m in 0..3 and d in {-2..+2} half of the time (uniform otherwise; at packet sizes up to 300 sometimes 254..257 or 511..513 full packets), split so that package ends also fall on packet ends; header type 1..23; call split queue-all / last-by-SendPackage / single SendPackage; 15% of the messages are preceded by an abandoned one (a partial packet queued, then flushed with a cancelled context: must fail and leave nothing behind); the peer announces a new packet size (256, 257, 511, 512, 513, 1024, 4096, 32768, 65535 or uniform) between messages; the peer's wire record is parsed by an independent header codec; non-trivial = message longer than one packet body or a size change took effect; distinct = distinct (packet size, boundary class d, m, split, channel kind)"
 }
 func (c01) Components() map[string]string {
 	return map[string]string{"tds (Channel.QueuePackage/SendRemainingPackets/SendPackage, PacketQueue, Packet, header writer)": "real (rewritten)", "transport": "stub: simrt.Conn records every Write", "server": "stub: sim/peer independent header codec and assembler; announces packet sizes via ENVCHANGE", "clock": "simulated (quiescence delimits messages)"}
@@ -89,6 +89,10 @@ func (c01) Gen(r *Rand, idx int, tier string) interface{} {
 			// runs that use both channels dwell on exact multiples: the empty end-of-message packet is the one
 			// packet whose header fields are not derived from a data packet
 			T = (1 + r.Intn(2)) * body
+		}
+		if ps <= 300 && r.Pct(4) {
+			// very many packets: counts of packets around the limits of small integer types
+			T = Pick(r, []int{254, 255, 256, 257, 511, 512, 513})*body + r.Intn(3) - 1
 		}
 		if T < 1 {
 			T = 1
